@@ -49,6 +49,21 @@ class FloorSim:
         world = worldgen.gen_world(rng, max_n=4 if big else 3, max_faces=8 if big else 5, max_vars=4, with_time=rng.random() < 0.8,
                                    allow_holes=False, materialise=rng.choice(['memory', 'memory', 'file', 'chunked', 'chunked_auto', 'chunked_auto']), min_vars=2)
         worldgen.add_depths(rng, world, max_layers=5 if big else 4)
+        if rng.random() < 0.15:
+            # a static variable that holds no data at all (a field the model did not write), after an ordinary variable on
+            # the same layers and grid: it must come out all-missing and must not disturb the others
+            seen = {}
+            tdim_ = world['time']['dim'] if world['time'] else None
+            for v_ in world['vars']:
+                key_ = (v_.get('depth'), v_['kind'])
+                if v_.get('depth') and key_ in seen:
+                    # same layers, same grid, same other dimensions as the earlier variable -- except time: it is static
+                    v_['extra'] = [list(e_) for e_ in seen[key_]['extra'] if e_[0] != tdim_]
+                    v_['all_missing'] = True
+                    v_['perm'] = None
+                    break
+                if v_.get('depth'):
+                    seen[key_] = v_
         vias = [rng.choice(['ops', 'ops', 'ops_names'])]
         if world['time']:
             vias = rng.choice([['ems'], ['ops'], ['ems', 'ops'], ['ops_names'], ['ems', 'ops_names']])
@@ -59,7 +74,26 @@ class FloorSim:
         return {'engine': self.name, 'world': world, 'vias': vias, 'fresh_hashseeds': fresh, 'before': before,
                 'penv': dict(seams.gen_process_env(rng), warnings_error=rng.random() < 0.2)}
 
+    @staticmethod
+    def _in_scope(plan):
+        """An all-missing variable is in scope only *after* an ordinary variable on the same layers and grid (emsarray locates
+        the floor of a group of variables from the group's first member: the documented shared, static sea floor)."""
+        seen = set()
+        tdim_ = plan['world']['time']['dim'] if plan['world'].get('time') else None
+        for v_ in plan['world']['vars']:
+            key_ = (v_.get('depth'), v_['kind'], frozenset(e_[0] for e_ in v_['extra'] if e_[0] != tdim_))
+            if v_.get('all_missing') and key_ not in seen:
+                return False
+            if v_.get('depth') and not v_.get('all_missing'):
+                seen.add(key_)
+        return True
+
     def shrink(self, plan):
+        for p in self._shrink(plan):
+            if self._in_scope(p):
+                yield p
+
+    def _shrink(self, plan):
         if plan.get('before'):
             p = copy.deepcopy(plan)
             p['before'] = plan['before'][1:]
@@ -162,7 +196,7 @@ class FloorSim:
             return
         want_cls = worldgen.CONV_CLASS[world.conv]
         depth_dims = {d['dim'] for d in world.spec['depths']}
-        depth_names = {d['name'] for d in world.spec['depths']}
+        depth_names = {d['name'] for d in world.spec['depths']} | {d['aux'] for d in world.spec['depths'] if d.get('aux')}
         by_via = {}
         for r in results:
             if 'error' in r and r.get('refusal_allowed'):
